@@ -324,6 +324,139 @@ class FastBuilder:
         return "ok", out
 
 
+class SeqBuilder:
+    """SEQUENCES of SDK calls on two qubits of one DebugConnection: `run(calls)` performs the real calls
+    (("rot", qubit 0/1, axis, {"angle": a} | {"n": n, "d": d}) or ("gate", qubit, "H"|"X"|…)) without flushing in
+    between and returns, in emission order, ("rot", virtual id, axis index, n, d) / ("gate", virtual id, name)."""
+
+    def __init__(self):
+        from netqasm.lang.ir import GenericInstr, ICmd
+        from netqasm.sdk.connection import BaseNetQASMConnection, DebugConnection
+        from netqasm.sdk.qubit import Qubit
+        from netqasm.sdk.shared_memory import SharedMemoryManager
+        SharedMemoryManager.reset_memories()
+        BaseNetQASMConnection._app_ids.clear()
+        DebugConnection.node_ids = {"A": 0}
+        self.ICmd, self.G = ICmd, GenericInstr
+        self.rots = {GenericInstr.ROT_X: 0, GenericInstr.ROT_Y: 1, GenericInstr.ROT_Z: 2}
+        self.conn = DebugConnection("A")
+        self.qs = [Qubit(self.conn), Qubit(self.conn)]
+        self.conn.builder.subrt_pop_pending_subroutine()
+
+    def run(self, calls):
+        try:
+            with np.errstate(all="ignore"):
+                for c in calls:
+                    q = self.qs[c[1]]
+                    if c[0] == "rot":
+                        getattr(q, "rot_" + c[2])(**c[3])
+                    else:
+                        getattr(q, c[2])()
+            sub = self.conn.builder.subrt_pop_pending_subroutine()
+        except Exception as e:  # noqa
+            try:
+                self.conn.builder.subrt_pop_pending_subroutine()
+            except Exception:  # noqa
+                pass
+            return "raise", type(e).__name__
+        regs, out = {}, []
+        for c in (sub.commands if sub is not None else []):
+            if not isinstance(c, self.ICmd):
+                continue
+            if c.instruction == self.G.SET:
+                regs[c.operands[0].index] = c.operands[1]
+            elif c.instruction in self.rots:
+                out.append(("rot", regs.get(c.operands[0].index), self.rots[c.instruction], c.operands[1], c.operands[2]))
+            else:
+                ops = [o for o in c.operands if hasattr(o, "index")]
+                out.append(("gate", regs.get(ops[0].index) if ops else None, str(c.instruction)))
+        return "ok", out
+
+
+def gen_rotation_sequence(rng):
+    """2-4 rotation calls on qubit 0 (float angles and explicit (n, d); same and different axes; equal d >= 8 with
+    large numerators), interleaved with gates / rotations on qubit 1 and now and then a gate on qubit 0"""
+    calls = []
+    axes = "XYZ"
+    ax = rng.choice(axes)
+    dd = rng.choice([8, 9, 10, 12, 16, 3, 5])
+    for _ in range(rng.randrange(2, 5)):
+        if rng.random() < 0.3:
+            ax = rng.choice(axes)
+        kind = rng.randrange(4)
+        if kind == 0:       # explicit (n, d), the same d as before, large numerator
+            arg = {"n": rng.choice([129, 201, 255, 128, 200, rng.randrange(1, 256)]), "d": dd}
+        elif kind == 1:     # a float that is exactly n pi / 2^d with that d
+            nn = rng.choice([129, 201, 101, 255, rng.randrange(1, 256)])
+            while (nn % 2 ** (dd + 1)) * 1000 < 2 ** dd or (2 ** (dd + 1) - nn % 2 ** (dd + 1)) * 1000 < 2 ** dd:
+                nn += 1     # not a multiple of 2 pi (such a call emits nothing and the runs would not line up)
+            arg = {"angle": nn * math.pi / 2 ** dd}
+        elif kind == 2:
+            arg = {"angle": rng.uniform(0.1, 6.0)}
+        else:
+            arg = {"n": rng.randrange(1, 256), "d": rng.randrange(0, 14)}
+        calls.append(("rot", 0, ax, arg))
+        r = rng.random()
+        if r < 0.25:        # something on the OTHER qubit in between
+            calls.append(("rot", 1, rng.choice(axes), {"angle": rng.uniform(0.1, 6.0)}) if rng.random() < 0.5
+                         else ("gate", 1, rng.choice(["H", "X", "Z"])))
+        elif r < 0.35:      # a gate on the same qubit ends the run
+            calls.append(("gate", 0, rng.choice(["H", "X"])))
+    return calls
+
+
+def check_rotation_sequence(calls, emitted, vqs, tol0):
+    """TOTAL emitted rotation of every maximal same-axis run (per qubit) vs the sum of the requested angles, modulo
+    2 pi, within the summed tolerance; exact rational arithmetic in units of pi. Returns failure texts."""
+    bad = []
+    for qi, vq in enumerate(vqs):
+        req = []            # requested runs: [axis, total (Fraction, units of pi), tolerance (radians)] or "gate"
+        for c in calls:
+            if c[1] != qi:
+                continue
+            if c[0] == "gate":
+                req.append("gate")
+                continue
+            axis = "XYZ".index(c[2])
+            if "angle" in c[3]:
+                val, tol = Fraction(c[3]["angle"]) / PI, Fraction(tol0) + slack(c[3]["angle"], tol0)
+            else:
+                val, tol = Fraction(c[3]["n"], 1 << c[3]["d"]), Fraction(0)
+            if req and req[-1] != "gate" and req[-1][0] == axis:
+                req[-1][1] += val
+                req[-1][2] += tol
+            else:
+                req.append([axis, val, tol])
+        em = []
+        for e in emitted:
+            if e[1] != vq:
+                continue
+            if e[0] == "gate":
+                em.append("gate")
+            elif em and em[-1] != "gate" and em[-1][0] == e[2]:
+                em[-1][1] += Fraction(e[3], 1 << e[4])
+                em[-1][2].append((e[3], e[4]))
+            else:
+                em.append([e[2], Fraction(e[3], 1 << e[4]), [(e[3], e[4])]])
+        if len(req) != len(em) or any((a == "gate") != (b == "gate") or (a != "gate" and a[0] != b[0])
+                                      for a, b in zip(req, em)):
+            bad.append("qubit %d: the emitted runs %s do not line up with the requested runs %s"
+                       % (qi, [x if x == "gate" else (x[0], x[2]) for x in em],
+                          [x if x == "gate" else (x[0], float(x[1])) for x in req]))
+            continue
+        for a, b in zip(req, em):
+            if a == "gate":
+                continue
+            x = (b[1] - a[1]) * PI
+            k = round(x / TWO_PI)
+            err = abs(x - k * TWO_PI)
+            if err > a[2]:
+                bad.append("qubit %d, axis %s: the emitted steps %s rotate by %.9f pi in total but the calls of this run "
+                           "ask for %.9f pi (mod 2): off by %.3e rad, summed tolerance %.3e"
+                           % (qi, "XYZ"[a[0]], b[2], float(b[1]), float(a[1]), float(err), float(a[2])))
+    return bad
+
+
 def builder_rotations(cases):
     """Build `q.rot_<axis>(angle=a)` on a DebugConnection; return per case the list of (n, d)
     operands of the emitted rotation instructions, or ('raise', class)."""
